@@ -1311,6 +1311,9 @@ class FuncAnalysis:
         if spec is not None:
             u.resolved_sites += 1
             if spec == 'arg0':
+                if pos and isinstance(pos[0], AV) and pos[0].has('dyn'):
+                    self.sink('S-dyncall', e, '%s() applied to a document-selected object (runs its __copy__ / __reduce_ex__ and '
+                                              'builds a new instance of its class)' % dotted)
                 return pos[0] if pos and isinstance(pos[0], AV) else T('top')
             if spec.endswith('*'):
                 return self.builtin_result(dotted, spec, pos, e)
